@@ -77,6 +77,7 @@ type pathState struct {
 	goPanic    bool
 	reads      []string
 	outputs    []string
+	outTexts   []string
 	sample     *PathSample
 	exitCode   int
 	exited     bool
